@@ -219,6 +219,7 @@ def doOset (line : String) : String := Id.run do
           | .lt => "less" | .eq => "equal" | .gt => "greater"]
       | "eq" => out := out ++ [toString ((get regs r).raw == (get regs arg.toNat!).raw)]
       | "clone" => regs := (r, get regs arg.toNat!) :: regs; out := out ++ [showSet ty (get regs r)]
+      | "clonefrom" => regs := (r, get regs arg.toNat!) :: regs; out := out ++ [showSet ty (get regs r)]
       | "default" => regs := (r, Oset.new) :: regs; out := out ++ [showSet ty (get regs r)]
       | "empty" => out := out ++ [toString ((get regs r).length == 0)]
       | "nth" =>
